@@ -24,7 +24,9 @@ itself builds in ``merge``, ``transient_to_pending`` / ``detached_to_persistent`
 ``inspect(obj)`` shows exactly the destination state while the listener runs.  Judged
 after every operation: every tracked instance shows exactly one of the five state flags
 and it is the shadow state (a state change without event, a missing or doubled event all
-end here); no instance's event chain inside one operation visits a state twice; after a
+end here); a persistent instance is its session's ``identity_map[key]`` and no instance in
+any other state is; ``persistent_to_detached`` / ``deleted_to_detached`` fire only inside
+operations documented to detach; no instance's event chain inside one operation visits a state twice; after a
 successful commit / rollback nothing of the session is left pending or deleted, after a
 flush nothing pending, after close / expunge_all nothing attached (documented end states:
 this is what exposes a transition that silently did not happen).
@@ -33,7 +35,9 @@ Workload: exhaustive sequences (<=3 ops quick, <=4 thorough) over a 17-op alphab
 linked objects (P parent, C child) from three start configurations (new / loaded /
 solo = loaded but unlinked; from length 3 on the configuration alternates), all
 sequences of length 4-5 (6 thorough) over {add, delete+flush, flush, rollback, commit,
-expunge} on one new object, plus
+expunge} on one new object, the *leave-and-return* product (10 + 7 ways to reach a state x
+5 ways to leave the session or not x add / merge / nothing x 32 (72 thorough) ways to finish
+the unit of work), plus
 seeded random histories (6-16 ops) on up to four objects with a second session (SQL-free
 ops only), SAVEPOINTs, cascades ``save-update, merge`` and ``all, delete-orphan``.
 
@@ -78,7 +82,7 @@ META = {
                 "ev_pending_to_persistent", "ev_detached_to_persistent", "ev_loaded_as_persistent",
                 "ev_persistent_to_deleted", "ev_deleted_to_persistent", "ev_deleted_to_detached",
                 "ev_persistent_to_detached", "eventless_make_transient", "eventless_make_transient_to_detached",
-                "post_op_state_checks"],
+                "post_op_state_checks", "leave_and_return_sequences", "identity_map_membership_checks"],
     "assumptions": ["transition table transcribed correctly from the two documentation files named above"],
 }
 
@@ -95,14 +99,22 @@ TABLE = {
     "deleted_to_detached": ("deleted", "detached"),
 }
 LIBRARY_BUILT_FIRST_EVENTS = ("transient_to_pending", "detached_to_persistent")
+DETACHING_EVENT_OPS = {
+    "persistent_to_detached": {"expunge", "expunge_all", "close", "make_transient", "rollback"},
+    "deleted_to_detached": {"commit", "expunge", "expunge_all", "close", "make_transient"},
+}
 
 
 class Tracker:
     def __init__(self, ctx, desc):
         from vf.gen.ormrig_gj import state_flags
 
+        from sqlalchemy import inspect as _inspect
+
         self.ctx = ctx
         self.flags = state_flags
+        self.inspect = _inspect
+        self.sessions = []          # the sessions of the case (for the identity-map guarantees)
         self.desc = desc            # witness base (config, ops so far)
         self.objs = {}              # id -> obj (strong: no id reuse)
         self.names = {}             # id -> short name for witnesses
@@ -177,6 +189,15 @@ class Tracker:
                       f"{self.nm(o)} visits {dst} twice inside one operation: {ch + [dst]}", o, obj=self.nm(o), chain=ch + [dst])
             return
         ch.append(dst)
+        allowed = DETACHING_EVENT_OPS.get(name)
+        if allowed is not None and self.op not in allowed:
+            # documented: an instance leaves a session for the detached state only through
+            # expunge / expunge_all / close (make_transient expunges; rollback is named by
+            # the persistent_to_detached docstring), a deleted one also through commit
+            self.viol(f"{name}-fired-by-{self.op}",
+                      f"{name} for {self.nm(o)} during {self.op}(), which is not an operation that detaches "
+                      f"{'deleted' if src == 'deleted' else 'persistent'} instances", o, event=name, obj=self.nm(o))
+            return
         actual = self.flags(o)
         if actual != (dst,):
             self.viol(f"event-destination-mismatch:{name}:actual-{'+'.join(actual) or 'none'}",
@@ -203,6 +224,23 @@ class Tracker:
                 self.viol(f"state-differs-from-event-shadow:events-say-{sh}:inspect-says-{actual[0]}",
                           f"{self.nm(o)}: lifecycle events lead to {sh}, inspect() says {actual[0]} after {(self.desc['ops'] or ['setup'])[-1]}",
                           o, obj=self.nm(o), shadow=sh, actual=actual[0])
+                continue
+            # documented guarantees of the state predicates w.r.t. Session.identity_map
+            st = self.inspect(o)
+            self.ctx.count("identity_map_membership_checks")
+            for sess in self.sessions:
+                mapped = st.key is not None and sess.identity_map.get(st.key) is o
+                owner = st.session is sess
+                if actual[0] == "persistent" and owner and not mapped:
+                    self.viol("persistent-instance-not-in-identity-map",
+                              f"{self.nm(o)} is persistent but not identity_map[key] of its session after "
+                              f"{(self.desc['ops'] or ['setup'])[-1]}", o, obj=self.nm(o))
+                    break
+                if mapped and not (owner and actual[0] == "persistent"):
+                    self.viol(f"{actual[0]}-instance-in-identity-map",
+                              f"{self.nm(o)} is {actual[0]}{'' if owner else ' / not owned by that session'} but is "
+                              f"identity_map[key] after {(self.desc['ops'] or ['setup'])[-1]}", o, obj=self.nm(o))
+                    break
 
 
 class World:
@@ -221,6 +259,7 @@ class World:
         self.rec = LifeRecorder(on_event=self.tr.on_event)
         self.s = rig.session(expire_on_commit=expire_on_commit)
         self.s2 = None
+        self.tr.sessions.append(self.s)
         self.rec.attach(self.s)
         self.nested = []
         self.o = {}
@@ -228,10 +267,12 @@ class World:
     def second_session(self):
         if self.s2 is None:
             self.s2 = self.rig.session()
+            self.tr.sessions.append(self.s2)
             self.rec.attach(self.s2)
         return self.s2
 
     def finish(self):
+        self.rec.detach_all()      # the clean-up close() below is not part of the history
         for s in (self.s, self.s2):
             if s is not None:
                 try:
@@ -559,6 +600,38 @@ def run(ctx):
                 run_case(ctx, rigs["plain"], "single", "plain", seq, expected_exc, expire_on_commit=bool(idx // 8 % 2))
                 ctx.count("exhaustive_sequences")
                 ctx.count("deep_sequences")
+        # ---- part A3: leave-and-return histories --------------------------------------
+        # input class: an object reaches a state, LEAVES the session (expunge / make_transient
+        # [+ make_transient_to_detached]) or not, comes BACK to the same session (add / merge)
+        # or not, and the unit of work is then finished in every way.
+        F = ["flush", "commit", "rollback", "begin_nested", "nested_rollback", "close", "delete_flush", "query"]
+        firsts = ["flush", "commit", "rollback"] if ctx.quick else F
+        finishes = [(f,) for f in F] + [(a, b) for a in firsts for b in F]
+        leaves = [(), ("expunge",), ("make_transient",), ("make_transient", "mttd"), ("expunge", "make_transient")]
+        backs = [("add",), ("merge",), ()]
+        prefixes = {
+            "single": [("add", "commit"), ("add", "flush"), ("add",), ("add", "commit", "delete_flush"),
+                       ("add", "flush", "delete_flush"), ("add", "commit", "delete_flush", "commit"),
+                       ("add", "commit", "delete"), ("add", "commit", "begin_nested", "delete_flush"),
+                       ("add", "commit", "expunge"), ("add", "commit", "begin_nested")],
+            "solo": [(), ("delete_flush",), ("delete_flush", "commit"), ("delete",), ("begin_nested", "delete_flush"),
+                     ("expunge",), ("begin_nested",)],
+        }
+        for config, pres in prefixes.items():
+            for pre in pres:
+                for lv in leaves:
+                    for bk in backs:
+                        for fin in finishes:
+                            idx += 1
+                            if not ctx.mine(idx):
+                                continue
+                            if not ctx.budget_ok():
+                                break
+                            seq = [(n, None if n in NO_OBJ else "o1") for n in pre + lv + bk + fin]
+                            run_case(ctx, rigs["plain"], config, "plain", seq, expected_exc,
+                                     expire_on_commit=bool(idx // 16 % 2))
+                            ctx.count("exhaustive_sequences")
+                            ctx.count("leave_and_return_sequences")
     finally:
         for r in rigs.values():
             r.close()
